@@ -204,7 +204,9 @@ def drive_logclean(item):
     rid, scn, variant = item
     sb = cli_defs.sandbox()
     sb.reset()
-    names = {"A": "alpha", "B": "bravo", "Gone1": "gone1", "Gone2": "gone.two"}
+    # target names may contain dots; a log belongs to the target named by everything before its last extension
+    names = [{"A": "alpha", "B": "bravo", "Gone1": "gone1", "Gone2": "gone.two"},
+             {"A": "alpha", "B": "bravo.v2", "Gone1": "alpha.old", "Gone2": "bravo"}][variant % 2]
     lines = ["from gwf import Workflow", "gwf = Workflow()"] + ["gwf.target(%r, inputs=[], outputs=[%r]) << 'echo'" % (names[t], "o_" + t) for t in scn["current"]]
     sb.write("workflow.py", "\n".join(lines) + "\n")
     conf = {"backend": "slurm"}
